@@ -39,6 +39,7 @@ CoordItemOk(it) == /\ it.outcome = "ok"
                    /\ it.q  = CoordTuple(it)         \* index_from_coordinate(s)
                    /\ it.p2 = CoordWant(it)          \* Coordinate::set_* then get_coordinate / to_string
                    /\ it.q2 = CoordTuple(it)         \* Coordinate::set_coordinate(s) then getters
+                   /\ it.q3 = CoordTuple(it)         \* the same on an object that parsed the previous items
                    /\ (~it.lc /\ ~it.lr) => it.p0 = CoordWant(it)   \* coordinate_from_index
 CoordsOk(e) ==
   LET j == FirstBad(e.items, CoordItemOk)
@@ -52,6 +53,7 @@ RangeItemOk(it) == /\ it.outcome = "ok"
                    /\ it.g.k \in {"cell", "rect"} => it.corners = RangeCorners(it.g)
                    /\ it.rs = RangeStr(it.g)              \* Range::set_range(s).get_range()
                    /\ it.rc = it.g                        \* Range getters after set_range(s), as a record
+                   /\ it.rc3 = it.g                       \* the same on an object that parsed the previous items
 RangesOk(e) ==
   LET j == FirstBad(e.items, RangeItemOk)
   IN  IF j = 0 THEN TRUE
